@@ -1,6 +1,7 @@
 //! unit: u12
 //! properties: C12 C13
 //! note: FixedLengthReader never reads past the declared length (any inner reader); CounterpartyCommitmentSecrets::write emits exactly the spec serialization (49 x (secret || be64(index)))
+//! trusted: assume_specification for core::cmp::min / core::cmp::max (std definitions)
 //! trusted: trait Read reduced to read() with the std::io::Read contract (returns at most dest.len(), advances the stream by what it returns); R8: `&mut dest[0..n]` -> slice_range_mut wrapper, `idx.to_be_bytes()` -> u64_to_be_bytes wrapper (be64 uninterpreted, 8 bytes, injective); Writer stub = append-only ghost byte log (write_all appends or fails without writing); R12 for the `for &(ref a, ref b) in ..` loop; `write_tlv_fields!(writer, {})` (empty TLV suffix) is replaced by a stub that appends the spec suffix tlv_empty()
 //! trusted: read side: trait ReadStream = byte sequence + cursor; read_32/read_u64/read_empty_tlv_fields are external_body stubs with the contract of <[u8;32] as Readable>::read, <u64 as Readable>::read (read_exact + from_be_bytes; be64 injective) and read_tlv_fields!(r, {}); R12 rewrites the `for &mut (ref mut a, ref mut b) in arr.iter_mut()` loop into an index loop assigning element by element
 //! plemma: C12 lemma_ccs_roundtrip: the store decoded from the bytes written for s is s (all 49 secrets and indices)
